@@ -275,12 +275,16 @@ PROPS["C06"] = {
     "level": "model_checking",
     "technique": "bounded exhaustive enumeration: every RSA-OAEP plaintext length from 0 to beyond the maximum per key size and the complete byte-mutation battery of ciphertexts judged by OpenSSL's decryption of the same bytes; plaintext alphabets and all operand pairs (incl. wrap-around) for the additively homomorphic schemes with sums checked by GMP; every ECIES plaintext length with every ciphertext/tag byte altered; ECDH/ECMQV keys against a KDF of the shared point computed by the reference group law; every (k, n) threshold with every share subset; every pair of subsets (<= 3 of a 6-element universe) for the three set-intersection protocols; every helper answer altered in every way of a mutation alphabet for the four delegated-pairing protocols; share-split alphabets for the group and pairing triples",
     "level_text": "RSA-OAEP (768/1024-bit keys, thorough 2048): EVERY plaintext length 0..k-66 plus two beyond (must be refused) x byte patterns (all-00, all-FF, leading zero, counter): round trip, exact length, guard bytes, OpenSSL decrypts the library's ciphertext; for a fifth of the lengths the whole battery of mutated ciphertexts (one bit in every third byte, thorough every byte; 0, 1, N-1, N, c+N, length +-1): library verdict and plaintext = OpenSSL's. Paillier, generalised Paillier (s = 1, 2), subgroup Paillier, Rabin, Benaloh (EVERY residue for blocks 2, 3, 5, 251, 257; block value refused): decrypt(encrypt(m)) = m over {0, 1, 2, n-1, n-2, n/2+-1, 2^63..2^65, a fixed value}; cp_phpe_add on ALL ordered pairs of that alphabet incl. sums that wrap, expected (m1 + m2) mod n by GMP. ECIES on six curves: every plaintext length 0..66 (stride 5 except on the first curve in quick): round trip, every byte of body and tag altered => error, truncations, other / identity ephemeral point => error, too-short output buffers not written beyond capacity. ECDH / ECMQV on six curves, key lengths {1, 16, 32, 33, 64, 65}: both parties agree and the key equals KDF2-SHA-256 of the x-coordinate of the shared point computed with ref_ec.h; identity peer key refused. BF-IBE round trip per length 0..40, foreign identity key does not decrypt; BGN enc/dec in G1, G2, product and sum homomorphisms over [0,17)^2. Shamir sharing: every 1 <= k <= n <= 5, secrets {0, 1, q-1, random}: EVERY k-subset and every (k+1)-subset reconstructs, shares interpolate to the secret by GMP Lagrange, indexes distinct and non-zero; multiplication triples: c = ab and the protocol output x y mod q for x, y in {0, 1, q-1, random}. SOK key agreement over all ordered identity pairs of a 12-name list (prefixes, case, trailing blank, empty). Protocol job (C06_proto.c): cp_rsapsi / cp_shipsi / cp_pbpsi on EVERY pair (X, Y) of subsets of at most three elements of {0, 1, 2, n-1, two dense} (42 x 42; quick thins pairs involving the sixth element), thorough also in reversed / rotated array order and a second key: the client's output is exactly the intersection as a multiset; cp_pdpub / cp_lvpub / cp_pdprv / cp_lvprv over P = [a]G1, Q = [b]G2, a, b in {0, 1, 2, n-1, dense}: honest helper accepted with e(P, Q), and EVERY answer altered in 8 ways (x generator, squared, inverted, 1, 0, another answer, non-member, x e(P,Q)): acceptance implies the output e(P, Q); cp_ped_com = [x]G + [r]H over 7 x 7 x 4 selectors incl. the refused ones; g1 / g2 / gt / pairing triples over k, point (incl. identity) and share-split alphabets.",
-    "level_note": "Trusted: OpenSSL (RSAES-OAEP decryption, SHA-256), GMP, reference group law. The shared-secret encoding follows the source (minimal-length x-coordinate, the 'BouncyCastle' quirk of ECIES). The protocol job states expected values with the library's own pairing, plain multiplications and group operations, which are decided against the reference models in C03/C04/C11/C12. Soundness of delegation is statistical in the 50-bit challenge; the alphabet contains only challenge-independent alterations, for which acceptance with a wrong value is a defect, not chance.",
+    "level_note": "Trusted: OpenSSL (RSAES-OAEP decryption, SHA-256), GMP, reference group law. The shared-secret encoding follows the source (minimal-length x-coordinate, the 'BouncyCastle' quirk of ECIES). The protocol job states expected values with the library's own pairing, plain multiplications and group operations, which are decided against the reference models in C03/C04/C11/C12. Soundness of delegation is statistical in the 50-bit challenge; the alphabet contains only challenge-independent alterations, for which acceptance with a wrong value is a defect, not chance. The protocol job also runs (thorough) in the B24, KSS16, KSS18 and B48 builds on the set pc_param_set_any selects: pairing-based set intersection, the four delegated-pairing protocols with every helper answer altered, and the g1 / g2 / gt / pairing triples over ep3 / ep4 / ep8 and the towers of degree 16, 18, 24, 48.",
     "rule": "cases are (scheme, key size / curve, seed, plaintext spec); each runs its whole battery; states = configurations; transitions = verdicts judged.",
     "assumptions": ["OpenSSL as independent implementation", "reference group law", "GMP"],
     "jobs": [
         {"name": "enc-w64", "world": "W64", "src": "props/C06_enc.c", "ldflags": ["-lcrypto"], "cflags": ["-Wno-deprecated-declarations"]},
         {"name": "proto-w64", "world": "W64", "src": "props/C06_proto.c"},
+        {"name": "proto-fam-w64-315", "world": "W64-315", "src": "props/C06_proto.c", "defs": ["FAM"], "tiers": ("thorough",)},
+        {"name": "proto-fam-w64-330", "world": "W64-330", "src": "props/C06_proto.c", "defs": ["FAM"], "tiers": ("thorough",)},
+        {"name": "proto-fam-w64-638", "world": "W64-638", "src": "props/C06_proto.c", "defs": ["FAM"], "tiers": ("thorough",)},
+        {"name": "proto-fam-w64-575q", "world": "W64-575q", "src": "props/C06_proto.c", "defs": ["FAM"], "tiers": ("thorough",)},
     ],
 }
 
